@@ -566,6 +566,12 @@ func (r *c04Run) replay() {
 }
 
 func runC04(c *fw.Ctx) {
+	defer func() {
+		// ledger-level sweep: altered parent records through ValidateBlock (c04_chain.go)
+		rule := c.Res.Rule
+		runC04L(c)
+		c.Res.Rule = rule + " PLUS ledger level: on generated chains every element record presented to the accumulator (v2 parents, v1 supplements, expiring contracts, chain indices) altered at one point, re-signed/re-sealed, must be rejected by ValidateBlock — including after an in-block revision of the same contract."
+	}()
 	c.Res.Rule = "membership questions put to the real containsLeaf / contains*Element on accumulator states reached by applyBlock/revertBlock: each genuine live leaf (expect accept) and each single mutation of it — element-hash bit, leaf index, spent flag, each proof hash, proof length +-1, another leaf's proof or position, never-created element, leaf of a reverted branch (expect reject); typed elements of all six kinds with every field altered by reflection. A case is one membership question; all are non-trivial; distinct by (kind,index,leaf,proof)."
 	r := &c04Run{c: c}
 	if c.Replay != "" {
